@@ -149,6 +149,9 @@ def generate(info):
     w('  bool dl = vs::S().deadlock;')
     w('  if (dl) { std::string st; for (auto& a : vs::S().actors) st += a.name + "=" + std::to_string((int)a.st) + " "; '
       'T("deadlock", st); std::cout << std::flush; std::_Exit(3); }')
+    w('  if (vs::S().outcome == 2) { T("free-deadlock", "main"); std::cout << std::flush; std::_Exit(5); }')
+    w('  if (vs::S().outcome == 1) { T("free-completed", "main"); for (auto& x : th) x.join(); '
+      'std::cout << std::flush; std::_Exit(4); }')
     w('#else')
     w('  go = true;')
     w('#endif')
